@@ -84,7 +84,7 @@ Proof.
   unfold parse_route_param. destruct (index_byte ">"%char s) as [pos|]; [|discriminate].
   pose proof (parse_name_addr_no_panic (firstn (S pos) s)) as H.
   destruct (parse_name_addr (firstn (S pos) s)); cbn [rbind]; try discriminate; [|contradiction].
-  destruct (trim_space (skipn (S pos) s)) as [|c rest]; [discriminate|].
+  destruct (trim_space_go (skipn (S pos) s)) as [|c rest]; [discriminate|].
   destruct (Ascii.eqb c ";"%char); [|discriminate].
   pose proof (parse_generic_params_no_panic (split_byte ";"%char rest)) as H1.
   destruct (parse_generic_params (split_byte ";"%char rest)); cbn [rbind]; try discriminate. contradiction.
@@ -442,7 +442,7 @@ Definition wit_cfg : cfg :=
   {| c_name := s2b "proxy.example.org"; c_keep_next_hop := false; c_dialog_timeout := 3600%Z;
      c_routes := []; c_hosts := []; c_listens := [wit_lc] |}.
 Definition legacy_bracket : fixes :=
-  {| fx_wiring := true; fx_udp_via_listener := true; fx_indialog_invite := true; fx_bracket_host := false |}.
+  {| fx_wiring := true; fx_udp_via_listener := true; fx_indialog_invite := true; fx_bracket_host := false; fx_resolved_key := true |}.
 (* a TCP request whose top Via has the sent-by host "[" (received-support off, so the host is
    not replaced by the peer address) *)
 Definition bracket_request : bytes :=
